@@ -14,7 +14,7 @@ Proof. vm_cast_no_check (eq_refl true). Qed.
 (* ---------------------------------------------------------------- reset does not look at the current settings *)
 (* whatever the `display` object currently is (t0 is a variable), reset() yields the pristine settings *)
 Lemma reset_any_state : forall t0 : tree,
-  reset colors reset_mode defaults_schema (Node [("display", t0)]) DEFAULTS = (pristine, None).
+  reset cenv reset_mode defaults_schema (Node [("display", t0)]) DEFAULTS = (pristine, None).
 Proof. intro t0. vm_compute. reflexivity. Qed.
 
 (* ---------------------------------------------------------------- every operation keeps the settings of that form *)
@@ -46,24 +46,24 @@ Proof.
 Qed.
 
 Lemma setattr_shape sd k v sd' :
-  shape_d sd = true -> setattr colors props sd k v = inl sd' -> shape_d sd' = true.
+  shape_d sd = true -> setattr cenv props sd k v = inl sd' -> shape_d sd' = true.
 Proof.
   intros Hs H. unfold setattr in H.
   destruct (slookup k props) as [s0|] eqn:E; [|discriminate H].
   pose proof (slookup_top k s0 E) as Hk. subst k.
   unfold props in E. simpl in E. inversion E; subst s0. clear E.
   destruct sp as [kd|tg kd vis|cn a b ct ps]; [|discriminate Hna|].
-  - destruct (set_into colors (SLeaf kd) v) as [t|e]; [|discriminate H].
+  - destruct (set_into cenv (SLeaf kd) v) as [t|e]; [|discriminate H].
     inversion H; subst. apply dset_shape. exact Hs.
-  - destruct (set_into colors (SObj cn a b ct ps) v) as [t|e]; [|discriminate H].
+  - destruct (set_into cenv (SObj cn a b ct ps) v) as [t|e]; [|discriminate H].
     inversion H; subst. apply dset_shape. exact Hs.
 Qed.
 
 Lemma apply_items_shape items : forall sd,
-  shape_d sd = true -> shape_d (fst (apply_items colors props items sd)) = true.
+  shape_d sd = true -> shape_d (fst (apply_items cenv props items sd)) = true.
 Proof.
   induction items as [|[k v] r IH]; intros sd Hs; simpl; [exact Hs|].
-  destruct (setattr colors props sd k v) as [sd'|e] eqn:E.
+  destruct (setattr cenv props sd k v) as [sd'|e] eqn:E.
   - apply IH. exact (setattr_shape sd k v sd' Hs E).
   - simpl. exact Hs.
 Qed.
@@ -72,13 +72,13 @@ Variables (cn : string) (a b : bool) (ct : list (string * option val)).
 Let S0 : schema := SObj cn a b ct props.
 
 Lemma update_shape st arg m r :
-  def_shape st = true -> def_shape (fst (update colors S0 st arg m r)) = true.
+  def_shape st = true -> def_shape (fst (update cenv S0 st arg m r)) = true.
 Proof.
   intros Hs. destruct st as [o|sd]; [discriminate Hs|]. unfold update, S0.
   match goal with |- context [und ?x1 ?x2 ?x3 ?x4] => destruct (und x1 x2 x3 x4) as [o|new] end.
   - simpl. exact Hs.
   - pose proof (apply_items_shape new sd Hs) as H.
-    destruct (apply_items colors props new sd) as [sd' e]. simpl in *. exact H.
+    destruct (apply_items cenv props new sd) as [sd' e]. simpl in *. exact H.
 Qed.
 
 Lemma update_at_shape sub st arg :
@@ -94,12 +94,12 @@ Proof.
 Qed.
 
 Lemma assign_shape p st v t' :
-  def_shape st = true -> assign colors S0 st p v = inl t' -> def_shape t' = true.
+  def_shape st = true -> assign cenv S0 st p v = inl t' -> def_shape t' = true.
 Proof.
   intros Hs H. destruct st as [o|sd]; [discriminate Hs|]. unfold S0 in H.
   destruct p as [|k [|k' p']]; cbn [assign] in H.
   - discriminate H.
-  - destruct (setattr colors props sd k v) as [sd'|e] eqn:E; [|discriminate H].
+  - destruct (setattr cenv props sd k v) as [sd'|e] eqn:E; [|discriminate H].
     inversion H; subst. simpl. exact (setattr_shape sd k v sd' Hs E).
   - destruct (slookup k props) as [s1|] eqn:E1; [|discriminate H].
     destruct (dget k sd) as [t|] eqn:E2; [|discriminate H].
@@ -128,21 +128,21 @@ Proof.
   - pose proof (update_at_shape sp Hna cn a b ct sub (w_def w) arg Hs) as H. rewrite <- Hd in H.
     destruct (update_at defaults_schema (w_def w) sub arg) as [t e]. simpl in *. exact H.
   - destruct (update_at (class_schema cls) (w_obj w) sub arg) as [t e]. simpl. exact Hs.
-  - destruct (assign colors defaults_schema (w_def w) p v) as [t|e] eqn:E; simpl.
+  - destruct (assign cenv defaults_schema (w_def w) p v) as [t|e] eqn:E; simpl.
     + rewrite Hd in E. exact (assign_shape sp Hna cn a b ct p (w_def w) v t Hs E).
     + exact Hs.
-  - destruct (lift_res (w_obj w) (assign colors (class_schema cls) (w_obj w) p v)) as [t e]. simpl. exact Hs.
-  - destruct (set_style colors style_setter_takes_instance (class_schema cls) (w_obj w) (SDict arg)) as [t e].
+  - destruct (lift_res (w_obj w) (assign cenv (class_schema cls) (w_obj w) p v)) as [t e]. simpl. exact Hs.
+  - destruct (set_style cenv style_setter_takes_instance (class_schema cls) (w_obj w) (SDict arg)) as [t e].
     simpl. exact Hs.
   - match goal with |- context [update ?a ?b ?c ?d ?e ?f] => destruct (update a b c d e f) as [inst [e0|]] end.
     + simpl. exact Hs.
-    + destruct (set_style colors style_setter_takes_instance (class_schema cls) (w_obj w) (SInst inst)) as [t e].
+    + destruct (set_style cenv style_setter_takes_instance (class_schema cls) (w_obj w) (SInst inst)) as [t e].
       simpl. exact Hs.
-  - destruct (set_style colors style_setter_takes_instance (class_schema cls) (w_obj w) SWrong) as [t e].
+  - destruct (set_style cenv style_setter_takes_instance (class_schema cls) (w_obj w) SWrong) as [t e].
     simpl. exact Hs.
   - destruct (def_shape_inv _ Hs) as [t0 Ht]. rewrite Ht. rewrite reset_any_state.
     cbn [fst snd w_def]. exact pristine_shape.
-  - destruct (get_style colors (class_schema cls) (class_families cls) dstyle_schema
+  - destruct (get_style cenv (class_schema cls) (class_families cls) dstyle_schema
                         (def_style_state (w_def w)) valid_keys (w_obj w) (show_style_kwargs kw)) as [t e].
     simpl. exact Hs.
 Qed.
